@@ -45,10 +45,25 @@ def base_molecules(ctx):
     mols = []
     repo = core.REPO
     for p in sorted(glob.glob(os.path.join(repo, 'tests/data/*.sdf*'))) + sorted(glob.glob(os.path.join(repo, 'tests/data/rand_sdf_files/*.sdf*'))):
+        full = cg.read_first_confs(p, 12)
+        # the shipped files of molecules with unspecified stereocentres hold conformers that are different stereoisomers in 3D; the SD
+        # reader perceives stereo from the first record, so only conformers that agree with conformer 0 make "the same molecule"
+        def from3d(cid):
+            cp = Chem.Mol(full)
+            Chem.AssignStereochemistryFrom3D(cp, confId=cid, replaceExistingTags=True)
+            return Chem.MolToSmiles(cp, isomericSmiles=True)
+        ids = [c.GetId() for c in full.GetConformers()]
+        same = [i for i in ids if from3d(i) == from3d(ids[0])]
         for k in (1, 3, 5):
-            m = cg.read_first_confs(p, k)
-            if m.GetNumConformers() == k or k == 1:
-                mols.append(('shipped:%s:%d' % (os.path.basename(p), k), m))
+            if len(same) < k:
+                continue
+            m = Chem.Mol(full)
+            for i in ids:
+                if i not in same[:k]:
+                    m.RemoveConformer(i)
+            for j, c in enumerate(m.GetConformers()):
+                c.SetId(j)
+            mols.append(('shipped:%s:%d' % (os.path.basename(p), k), m))
     for name, smi in cg.MOLS[:ctx.n(8, len(cg.MOLS))]:
         for k, keep_h in ((2, False), (4, False), (6, True)):
             m = cg.embed_pool(smi, k, seed=11)
@@ -112,7 +127,7 @@ def vary(rng, mol):
 
 def in_domain(d, wl, rl):
     """The domain of the property statement: consistent molecule, limits that allow at least one conformer."""
-    return d['energies'] in ('none', 'formatted') and wl not in (0,) and rl not in (0,)
+    return d['energies'] in ('none', 'formatted') and (wl is None or wl == -1 or wl >= 1) and (rl is None or rl == -1 or rl >= 1)
 
 
 def run(ctx):
@@ -332,6 +347,8 @@ def run(ctx):
     ctx.assumptions += ['PARTIAL: identity of the molecule, coordinate precision (<= 5e-5) and property strings through the SD format are RDKit\'s: tested on %d files, not proved'
                         % dist['sd_cases'],
                         'names and SMILES contain no Unicode-only white space (U+0085, U+00A0, U+2000..): the byte-level model does not split there, str.split() does',
+                        'all conformers of a molecule are the same stereoisomer in 3D (the shipped files of molecules with unspecified centres mix stereoisomers; '
+                        'the SD reader perceives stereo from the first record): conformers disagreeing with conformer 0 are left out',
                         'explicit hydrogens are dropped by RDKit\'s reader (removeHs=True): identity and coordinates are compared on heavy atoms',
                         'domain of the direct round-trip assertions: >= 1 conformer, no energies or one formatted energy per conformer, no own `Energy` property, limits None/-1/>= 1; '
                         'outside it only model = code is checked (see findings/repro_conf.py for what happens there)']
